@@ -31,7 +31,7 @@ ASSUMPTIONS = ["reads listed several times in the TSV are listed identically"]
 def budget(tier):
     if tier == "quick":
         return {"examples": 800, "shards": 2}
-    return {"examples": 3000, "shards": 16}
+    return {"examples": 8000, "shards": 16}
 
 
 @st.composite
